@@ -286,6 +286,7 @@ class Interp:
         self.inline_getattribute = False
         from . import models
         self.models = models
+        models.CURRENT["ctx"] = ctx
         self.builtins = models.make_builtins(self)
 
     # -- modules -------------------------------------------------------------------
@@ -346,6 +347,12 @@ class Interp:
     def class_attr(self, cls, name, _seen=None):
         """Look `name` up on a repo class and its bases; returns (found, value)."""
         info = cls.info
+        pref = f"_{info.name.lstrip('_')}__"
+        if name not in info.methods and name not in info.attrs and name.startswith(pref):
+            # private name mangling: the class body spells it __name
+            short = "__" + name[len(pref):]
+            if short in info.methods or short in info.attrs:
+                name = short
         if name in info.methods:
             nodes = info.methods[name]
             key = ("cattr", info.module.relpath, info.name, name)
